@@ -104,7 +104,7 @@ PROPS = {
         technique="Lean 4 proof (the check is a function of type test, dtype and shape; extracted attribute-use facts) + eager-vs-transformed differential run under jit / vmap / grad / eval_shape",
     ),
     "C18": dict(
-        text="Kernel-checked theorems about the model of the loader's bytecode cache: with the cache-name patch confined to get_code (fact re-extracted from the current source and decided, as is the presence of the typechecker hash in the tag), the invariant 'every entry is what its tag says' holds for every reachable cache and every load of every run of every history (any hooked subsets, typecheckers, nested import orders, source edits) executes the code the current source and configuration call for; tags of different configurations never collide; with the patch spanning exec_module a two-run history provably executes stale code (the repaired defect F1). On the real code: histories of 2-4 fresh interpreter runs over one cache directory with bytecode writing enabled, modules with nested imports, hooked subsets / typecheckers / source edits varied; per module: instrumented?, by which checker, current source?",
+        text="Kernel-checked theorems about the model of the loader's bytecode cache: with the cache-name patch confined to get_code (fact re-extracted from the current source and decided, as is the presence of the typechecker hash in the tag), the invariant 'every entry is what its tag says' holds for every reachable cache and every load of every run of every history (any hooked subsets, typecheckers, nested import orders, source edits, runs that write bytecode and runs that only read it) executes the code the current source and configuration call for; tags of different configurations never collide; with the patch spanning exec_module a two-run history provably executes stale code (the repaired defect F1), and so does skipping the patch in a run that writes no bytecode. On the real code: histories of 2-4 fresh interpreter runs over one cache directory, each run with bytecode writing on or off (-B), modules with nested imports, hooked subsets / typecheckers / source edits varied; per module: instrumented?, by which checker, current source?",
         note="Partial: the file system, mtime/size validation of pyc files and importlib's SourceLoader are modelled (version number = what the validation compares), not verified.",
         technique="Lean 4 proof (cache invariant by induction over histories of runs; extracted patch-scope fact) + multi-run subprocess histories",
     ),
